@@ -235,4 +235,57 @@ example : processBlock (fun (k : Nat × Int) => if k.1 < 4 then some k.1 else no
 example : processBlockAccepts (C04.new 4)
     [(0, ⟨5, 0, 1, 7, 100⟩), (1, ⟨5, 0, 1, 7, 101⟩), (3, ⟨5, 0, 1, 7, 99⟩)] (fun d => d + 1) 8 = true := by decide
 
+
+/-! ### import path: which validator set, which target
+
+`verifyNewBlock` → `verifyProofForLastBlock(prev, b.Votes())` (and `manager.newConsensusInfo`,
+`_propose`) verify the certificate carried by block h+1 against `prev.GetVoters()` =
+`NextValidators` of the block at height h−1 — *not* the next validators of `prev` itself nor of
+the importing block — and against the target (h, list round, id of `prev`). -/
+
+/-- The certificate for the block at height h > 0 is accepted on import exactly when every item is
+    a signature, over (h, id of that block, the list's round), by a member of
+    `NextValidators(block h−1)`, no member signs twice, and more than 2/3 of that set signed. -/
+theorem import_certificate_designated_set (nextVals : Nat → List Nat) (blockIdAt : Nat → Nat)
+    (h round : Nat) (hh : 0 < h) (hne : 0 < (nextVals (h - 1)).length) (items : List Sig) :
+    (∃ voted, verifyProofForLast nextVals blockIdAt h round items = Res.ok voted) ↔
+      ((∀ s ∈ items, s.key ∈ nextVals (h - 1) ∧ s.height = h ∧ s.blockId = blockIdAt h ∧ s.round = round) ∧
+       (items.map (·.key)).Nodup ∧
+       3 * items.length > 2 * (nextVals (h - 1)).length) := by
+  unfold verifyProofForLast
+  have hb : (h == 0) = false := by simp; omega
+  rw [hb, verifyBlock_accepts_iff _ _ hne]
+  have hall : (∀ it ∈ items, ∃ i, signerIn (nextVals (h - 1)) h (blockIdAt h) round it = some i ∧
+        i < (nextVals (h - 1)).length) ↔
+      (∀ s ∈ items, s.key ∈ nextVals (h - 1) ∧ s.height = h ∧ s.blockId = blockIdAt h ∧ s.round = round) := by
+    constructor
+    · intro H s hs; exact (Proofs.signerIn_some_iff _ _ _ _ s).1 (H s hs)
+    · intro H s hs; exact (Proofs.signerIn_some_iff _ _ _ _ s).2 (H s hs)
+  constructor
+  · rintro ⟨h1, h2, h3⟩
+    have h1' := hall.1 h1
+    refine ⟨h1', ?_, h3⟩
+    exact (Proofs.nodup_map_congr _ _ items
+      (fun x hx y hy => Proofs.signerIn_inj _ _ _ _ x y (h1' x hx) (h1' y hy))).1 h2
+  · rintro ⟨h1, h2, h3⟩
+    refine ⟨hall.2 h1, ?_, h3⟩
+    exact (Proofs.nodup_map_congr _ _ items
+      (fun x hx y hy => Proofs.signerIn_inj _ _ _ _ x y (h1 x hx) (h1 y hy))).2 h2
+
+example : verifyProofForLast (fun k => [[4], [4], [0, 1, 2, 3], [2, 3, 5]].getD k []) id 3 0
+    [⟨0, 3, 3, 0⟩, ⟨1, 3, 3, 0⟩, ⟨2, 3, 3, 0⟩] = Res.ok [true, true, true, false] := by decide
+
+/-- In particular a certificate signed (correctly targeted) by a validator that is not in
+    `NextValidators(block h−1)` — e.g. by the next validators of the block itself — is rejected. -/
+theorem import_rejects_other_validator_set (nextVals : Nat → List Nat) (blockIdAt : Nat → Nat)
+    (h round : Nat) (hh : 0 < h) (hne : 0 < (nextVals (h - 1)).length) (items : List Sig)
+    (s : Sig) (hs : s ∈ items) (hout : s.key ∉ nextVals (h - 1)) :
+    ∀ voted, verifyProofForLast nextVals blockIdAt h round items ≠ Res.ok voted := by
+  intro voted hv
+  have := (import_certificate_designated_set nextVals blockIdAt h round hh hne items).1 ⟨voted, hv⟩
+  exact hout (this.1 s hs).1
+
+example : verifyProofForLast (fun k => [[4], [4], [0, 1, 2, 3], [2, 3, 5]].getD k []) id 3 0
+    [⟨2, 3, 3, 0⟩, ⟨3, 3, 3, 0⟩, ⟨5, 3, 3, 0⟩] = Res.reject := by decide
+
 end Goloop.C05
